@@ -76,13 +76,13 @@ WK_ASSUME = [
 ]
 
 REGISTRY = {
-    "C01": {"module": "props.tokenizer", "units": ["lemmas", "ctor", "process", "post_process", "iter_tokens", "string_source"],
+    "C01": {"module": "props.tokenizer", "units": ["lemmas", "ctor", "process", "post_process", "iter_tokens", "string_source", "tokenize"],
             "witness": "tok", "assumptions": TOK_ASSUME},
-    "C02": {"module": "props.tokenizer", "units": ["lemmas", "ctor", "process", "post_process", "iter_tokens"],
+    "C02": {"module": "props.tokenizer", "units": ["lemmas", "ctor", "process", "post_process", "iter_tokens", "tokenize", "string_source"],
             "witness": "tok", "assumptions": TOK_ASSUME},
-    "C03": {"module": "props.tokenizer", "units": ["lemmas", "ctor", "process", "post_process", "iter_tokens"],
+    "C03": {"module": "props.tokenizer", "units": ["lemmas", "ctor", "process", "post_process", "iter_tokens", "tokenize", "string_source"],
             "witness": "tok", "assumptions": TOK_ASSUME},
-    "C04": {"module": "props.tokenizer", "units": ["lemmas", "ctor", "process", "post_process", "iter_tokens"],
+    "C04": {"module": "props.tokenizer", "units": ["lemmas", "ctor", "process", "post_process", "iter_tokens", "tokenize", "string_source"],
             "witness": "tok", "assumptions": TOK_ASSUME + [
                 "the 'consequently' sentences of C04 are read as corollaries of Emit-equivalence; lemma E "
                 "(piece inside its stretch, stretch starts valid) is proved, the coverage corollary is proved "
@@ -92,6 +92,8 @@ REGISTRY = {
                       {"module": "props.readers", "units": ["fixed", "audioreader", "proxy"]},
                       {"module": "props.readers", "units": ["recorder"], "include_all": True},
                       {"module": "props.sources", "units": ["buffer_read", "file_read", "file_open", "accessors"], "include_all": True},
+                      # a file input: the eager loaders hand the file's own frames and header to the buffer source
+                      {"module": "props.iofuncs", "units": ["loaders", "from_file", "get_audio_source"], "include_all": True},
                       # "the regions are exactly the tokenizer segmentation (C01-C04) of the per-window decisions (C07)"
                       # ... of the tokenizer AS split() USES IT: fresh object per call, no initial phase (context "split")
                       {"module": "props.tokenizer", "units": ["lemmas", "process", "post_process", "iter_tokens", "tokenize"],
@@ -133,8 +135,10 @@ REGISTRY = {
                 "sample widths are case-split over {1, 2, 4, other}; channel count and window length are symbolic"]},
     "C08": {"parts": [{"module": "props.tokenizer", "units": ["lemmas", "ctor", "process", "post_process", "iter_tokens", "tokenize", "string_source"]},
                       {"module": "props.split", "units": ["split"]},
-                      {"module": "props.readers", "units": ["fixed", "overlap_iter", "overlap_misc", "limiter"], "include_all": True}],
-            "witness": "tok", "witness_also": [("api", "C05")],
+                      {"module": "props.readers", "units": ["fixed", "overlap_iter", "overlap_misc", "limiter"], "include_all": True},
+                      # "the source is not read further": also when the stream is ended by a stop request (worker pipeline)
+                      {"module": "props.workers", "units": ["tokenizer_init_read"]}],
+            "witness": "tok", "witness_also": [("api", "C05"), ("workers", "C14")],
             "assumptions": TOK_ASSUME + ["split(): the AudioReader / tokenizer constructors are used by contract"]},
     "C09": {"parts": [{"module": "props.split", "units": ["split", "region_split"]},
                       {"module": "props.iofuncs", "units": ["guess_format", "get_audio_parameters", "get_audio_source", "from_file", "loaders"]},
@@ -155,6 +159,8 @@ REGISTRY = {
                 "numpy export: element [c][i] is the signed little-endian value of channel c of sample i -- proved as the "
                 "to_array contract in C07 (numpy axiomatised)"]},
     "C10": {"parts": [{"module": "props.readers", "units": ["limiter", "fixed", "overlap_iter", "overlap_misc", "audioreader", "proxy"]},
+                      # a recording reader frames its replay source: that source must be the recording in the recorder's own format
+                      {"module": "props.readers", "units": ["recorder"], "include_all": True},
                       # the wrapped source really obeys the interface contract the wrappers are verified against
                       {"module": "props.sources", "units": ["buffer_read", "file_read", "file_open"], "include_all": True}],
             "witness": "api", "witness_also": [("api", "C11")], "assumptions": RD_ASSUME},
@@ -201,7 +207,9 @@ REGISTRY = {
                 "flush contract (C04 at N = blocks read so far) gives the detections of the prefix",
                 "cmdline.main's interrupt handler is covered by C15's path contract (KeyboardInterrupt => stop_all => status 0)"]},
     "C15": {"parts": [{"module": "props.cmdline", "units": ["formatter", "option_table", "make_kwargs", "initialize_workers", "main"]},
-                      {"module": "props.workers", "units": ["print_worker", "worker_run", "tokenizer_run", "tokenizer_init_read", "observers_misc", "export"]}],
+                      {"module": "props.workers", "units": ["print_worker", "worker_run", "tokenizer_run", "tokenizer_init_read", "observers_misc", "export"]},
+                      # "on a file or on standard input": the stdin source reads the process's buffered binary stdin
+                      {"module": "props.sources", "units": ["accessors", "file_read"], "include_all": True}],
             "witness": "cli", "witness_also": [("workers", "C12")], "assumptions": [
                 "argparse semantics (add_argument / parse_args), str.format, str.replace/index and print are library models (assumed); "
                 "the option table is read from the literal add_argument calls in main()'s AST",
@@ -224,10 +232,12 @@ REGISTRY = {
                 "sum() is 0 + r1 (-> __radd__) followed by __add__",
                 "division: 'sum of the pieces equals the original' follows from the proved tiling "
                 "(pieces are self[s(j):s(j+1)], s(0)=0, s(count)=len) by the proved concat lemma and induction on the piece count"]},
-    "C20": {"parts": [{"module": "props.tokenizer", "units": ["lemmas", "ctor", "process", "post_process", "iter_tokens", "stale_fields", "string_source"]},
+    "C20": {"parts": [{"module": "props.tokenizer", "units": ["lemmas", "ctor", "process", "post_process", "iter_tokens", "stale_fields", "string_source", "tokenize"]},
                       {"module": "props.split", "units": ["split"]},
                       {"module": "props.validator", "units": ["is_valid"]},
                       {"module": "props.sources", "units": ["buffer_position", "buffer_init"]},
+                      # "closing and reopening a buffer source restarts at the beginning": what read() hands out after the reopen
+                      {"module": "props.sources", "units": ["buffer_read"], "include_all": True},
                       {"module": "props.readers", "units": ["recorder", "replay_lemma", "limiter", "overlap_misc"], "include_all": True}],
             "witness": "tok", "witness_also": [("api", "C05")], "assumptions": TOK_ASSUME + [
                 "split(): every call builds a new reader, validator and tokenizer (constructor contracts) and reads a region's "
